@@ -11,14 +11,20 @@ use any_spawner::{CustomExecutor, Executor, PinnedFuture, PinnedLocalFuture};
 use reactive_graph::{
     computed::{ArcMemo, Memo, Selector},
     effect::{Effect, ImmediateEffect, RenderEffect},
-    graph::untrack,
+    graph::{untrack, untrack_with_diagnostics},
     owner::{LocalStorage, Owner, SyncStorage},
     signal::{
         arc_signal, signal, ArcMappedSignal, ArcReadSignal, ArcRwSignal, ArcTrigger, ArcWriteSignal,
         MappedSignal, ReadSignal, RwSignal, WriteSignal,
     },
-    traits::{Dispose, Get, GetUntracked, Notify, Set, Track},
-    wrappers::read::{ArcSignal, Signal},
+    traits::{
+        Dispose, Get, GetUntracked, Notify, Read, ReadUntracked, Set, Track, Update,
+        UpdateUntracked, UntrackableGuard, With, WithUntracked, Write,
+    },
+    wrappers::{
+        read::{ArcSignal, MaybeProp, Signal},
+        write::SignalSetter,
+    },
 };
 #[allow(deprecated)]
 use reactive_graph::wrappers::read::MaybeSignal;
@@ -89,6 +95,11 @@ enum Handle {
     Mapped(MappedSignal<i64>, usize),         // MappedSignal::new(RwSignal, id, id)
     #[allow(deprecated)]
     Maybe(MaybeSignal<i64>, Option<usize>),   // MaybeSignal::from(..) / Static
+    // LocalStorage representations (derive_local / stored_local / From<Arc..Signal> for Signal<_, LocalStorage>)
+    WrapL(Signal<i64, LocalStorage>, Option<usize>),
+    ArcWrapL(ArcSignal<i64, LocalStorage>, Option<usize>),
+    Prop(MaybeProp<i64>, Option<usize>),       // MaybeProp::from(..) / derive
+    OptSig(Signal<Option<i64>>, Option<usize>), // Signal<Option<T>>::from(Signal<T>) / from(T)
     Effect, // not readable
     // a Selector occupies several nodes of the case: its value cell and the cell of the previous
     // value (locals of the real closure: no object of their own), one node per key (the
@@ -106,6 +117,7 @@ enum Handle {
 fn wrapped_of(h: &Handle) -> Option<usize> {
     match h {
         Handle::Wrap(_, k) | Handle::ArcWrap(_, k) | Handle::Maybe(_, k) => *k,
+        Handle::WrapL(_, k) | Handle::ArcWrapL(_, k) | Handle::Prop(_, k) | Handle::OptSig(_, k) => *k,
         Handle::ArcMapped(_, k) | Handle::Mapped(_, k) => Some(*k),
         _ => None,
     }
@@ -189,9 +201,11 @@ struct Ctx {
     gone: Vec<bool>,   // node i (an arena signal / memo) was disposed
     templates: Vec<Option<Sexp>>, // declaration of template node k
     next_id: i64,      // id of the next instance
+    vars: Vec<i64>,    // API variant of node i (reads: var % 8; writes / constructors: var / 8)
+    flags: i64,        // case flags: 1 fresh waker per poll, 2 untrack_with_diagnostics
 }
 thread_local! {
-    static CTX: RefCell<Ctx> = RefCell::new(Ctx { trace: vec![], stack: vec![], untracked: 0, mask: 0, effects: vec![], gone: vec![], templates: vec![], next_id: 0 });
+    static CTX: RefCell<Ctx> = RefCell::new(Ctx { trace: vec![], stack: vec![], untracked: 0, mask: 0, effects: vec![], gone: vec![], templates: vec![], next_id: 0, vars: vec![], flags: 0 });
     // Arc handles of memos created at run time: "the user keeps them somewhere" (an ArcMemo that
     // is dropped at the end of the body that created it is a dead source)
     static KEEP: RefCell<Vec<Handle>> = RefCell::new(vec![]);
@@ -214,6 +228,12 @@ fn ev(kind: i64, rest: Vec<i64>) {
         v.extend(rest.into_iter().map(Num));
         c.trace.push(Lst(v));
     })
+}
+fn var_of(j: usize) -> i64 {
+    CTX.with(|c| c.borrow().vars.get(j).copied().unwrap_or(0))
+}
+fn flag(bit: i64) -> bool {
+    CTX.with(|c| c.borrow().flags & bit != 0)
 }
 fn is_gone(j: usize) -> bool {
     CTX.with(|c| c.borrow().gone.get(j).copied().unwrap_or(false))
@@ -288,69 +308,89 @@ fn read_node(hs: &[Handle], j: usize, tracked_read: bool) -> i64 {
         ev(2, vec![reader(), j as i64, v, t as i64]);
         return v;
     }
+    // the access path: every one of them must give the same value and the same tracking
+    let rv = var_of(j) % 8;
+    // track() + get_untracked() would evaluate a derived closure twice: only for plain nodes
+    let plain_inside = match wrapped_of(h) {
+        Some(k) => matches!(hs[k], Handle::ArcRw(_) | Handle::Pair(..) | Handle::Rw(_) | Handle::ArcPair(..) | Handle::ArcMemo(_) | Handle::Memo(_)),
+        None => false,
+    };
+    let rvw = if rv == 3 && !plain_inside { 4 } else { rv };
+    macro_rules! rd {
+        ($s:expr, $rv:expr) => {{
+            let s = $s;
+            if tracked_read {
+                match $rv {
+                    1 => s.with(|v| v.clone()),
+                    2 => (*s.read()).clone(),
+                    3 => {
+                        s.track();
+                        s.get_untracked()
+                    }
+                    4 => s.try_get().expect("try_get on a live node gave None"),
+                    _ => s.get(),
+                }
+            } else {
+                match $rv {
+                    1 => s.with_untracked(|v| v.clone()),
+                    2 => (*s.read_untracked()).clone(),
+                    3 => s.try_get_untracked().expect("try_get_untracked on a live node gave None"),
+                    4 => s.try_with_untracked(|v| v.clone()).expect("try_with_untracked on a live node gave None"),
+                    _ => s.get_untracked(),
+                }
+            }
+        }};
+    }
+    macro_rules! rdw {
+        // wrappers: the harness-side untracked flag is raised around an untracked read (the
+        // closure inside logs its own reads)
+        ($s:expr) => {{
+            if tracked_read {
+                rd!($s, rvw)
+            } else {
+                let _g = UntrGuard::enter();
+                rd!($s, rvw)
+            }
+        }};
+    }
     let v = match h {
-        Handle::ArcRw(s) => if tracked_read { s.get() } else { s.get_untracked() },
-        Handle::Pair(r, _) => if tracked_read { r.get() } else { r.get_untracked() },
-        Handle::Rw(s) => if tracked_read { s.get() } else { s.get_untracked() },
-        Handle::ArcPair(r, _) => if tracked_read { r.get() } else { r.get_untracked() },
+        Handle::ArcRw(s) => rd!(s, rv),
+        Handle::Pair(r, _) => rd!(r, rv),
+        Handle::Rw(s) => rd!(s, rv),
+        Handle::ArcPair(r, _) => rd!(r, rv),
         Handle::Trig(cell, t) => {
             if tracked_read {
                 t.track();
             }
             cell.load(Ordering::SeqCst)
         }
-        Handle::ArcMemo(m) => if tracked_read { m.get() } else { m.get_untracked() },
-        Handle::Memo(m) => if tracked_read { m.get() } else { m.get_untracked() },
+        Handle::ArcMemo(m) => rd!(m, rv),
+        Handle::Memo(m) => rd!(m, rv),
         Handle::Closure(f) => {
             if tracked_read {
                 f()
             } else {
                 let _g = UntrGuard::enter();
-                untrack(|| f())
+                if flag(2) { untrack_with_diagnostics(|| f()) } else { untrack(|| f()) }
             }
         }
-        Handle::Derive(s) => {
-            if tracked_read {
-                s.get()
-            } else {
-                let _g = UntrGuard::enter();
-                s.get_untracked()
-            }
-        }
-        Handle::ArcDerive(s) => {
-            if tracked_read {
-                s.get()
-            } else {
-                let _g = UntrGuard::enter();
-                s.get_untracked()
-            }
-        }
-        Handle::Wrap(s, _) => {
-            if tracked_read {
-                s.get()
-            } else {
-                let _g = UntrGuard::enter();
-                s.get_untracked()
-            }
-        }
-        Handle::ArcWrap(s, _) => {
-            if tracked_read {
-                s.get()
-            } else {
-                let _g = UntrGuard::enter();
-                s.get_untracked()
-            }
-        }
-        Handle::ArcMapped(s, _) => if tracked_read { s.get() } else { s.get_untracked() },
-        Handle::Mapped(s, _) => if tracked_read { s.get() } else { s.get_untracked() },
+        Handle::Derive(s) => rdw!(s),
+        Handle::ArcDerive(s) => rdw!(s),
+        Handle::Wrap(s, _) => rdw!(s),
+        Handle::ArcWrap(s, _) => rdw!(s),
+        Handle::WrapL(s, _) => rdw!(s),
+        Handle::ArcWrapL(s, _) => rdw!(s),
+        Handle::ArcMapped(s, _) => rd!(s, rv),
+        Handle::Mapped(s, _) => rd!(s, rv),
         #[allow(deprecated)]
-        Handle::Maybe(s, _) => {
-            if tracked_read {
-                s.get()
-            } else {
-                let _g = UntrGuard::enter();
-                s.get_untracked()
-            }
+        Handle::Maybe(s, _) => rdw!(s),
+        Handle::Prop(s, _) => {
+            let o: Option<i64> = rdw!(s);
+            o.expect("MaybeProp over a value gave None")
+        }
+        Handle::OptSig(s, _) => {
+            let o: Option<i64> = rdw!(s);
+            o.expect("Signal<Option<T>> lifted from a value gave None")
         }
         Handle::Effect => panic!("case reads an effect node"),
         Handle::SelCell | Handle::SelKey(_) | Handle::Sel(..) => {
@@ -367,15 +407,109 @@ fn read_node(hs: &[Handle], j: usize, tracked_read: bool) -> i64 {
     v
 }
 
+/// every way of writing a signal: all of them store the value and notify the subscribers
+macro_rules! wr {
+    ($h:expr, $v:expr, $wv:expr) => {{
+        let h = $h;
+        let v: i64 = $v;
+        match $wv {
+            1 => h.update(|n| *n = v),
+            2 => h.maybe_update(|n| {
+                *n = v;
+                true
+            }),
+            3 => {
+                let mut g = h.write();
+                *g = v;
+            }
+            4 => {
+                if h.try_set(v).is_some() {
+                    panic!("try_set on a live signal handed the value back")
+                }
+            }
+            5 => {
+                h.try_update(|n| *n = v).expect("try_update on a live signal gave None");
+            }
+            7 => {
+                h.update_untracked(|n| *n = v);
+                h.notify();
+            }
+            9 => {
+                *h.write_untracked() = v;
+                h.notify();
+            }
+            _ => h.set(v),
+        }
+    }};
+}
+macro_rules! nt {
+    ($h:expr, $nv:expr) => {{
+        let h = $h;
+        match $nv {
+            1 => {
+                let _g = h.write(); // an untouched guard notifies when dropped
+            }
+            2 => h.update(|_| {}),
+            _ => h.notify(),
+        }
+    }};
+}
+/// operations that are NOT writes: no notification may result
+macro_rules! silent {
+    ($h:expr, $how:expr) => {{
+        let h = $h;
+        match $how {
+            1 => {
+                let mut g = h.write();
+                g.untrack();
+            }
+            2 => {
+                h.try_maybe_update(|_| (false, ()));
+            }
+            3 => {
+                h.update_untracked(|_| {});
+            }
+            4 => {
+                let _g = h.write_untracked();
+            }
+            _ => h.maybe_update(|_| false),
+        }
+    }};
+}
+
 fn write_node(hs: &[Handle], s: usize, v: i64) {
     if is_gone(s) {
         return;
     }
+    let wv = var_of(s) / 8;
     match &hs[s] {
-        Handle::ArcRw(h) => h.set(v),
-        Handle::Pair(_, w) => w.set(v),
-        Handle::Rw(h) => h.set(v),
-        Handle::ArcPair(_, w) => w.set(v),
+        Handle::ArcRw(h) => match wv {
+            6 => {
+                let h = h.clone();
+                SignalSetter::<i64>::map(move |x| h.set(x)).set(v)
+            }
+            8 => ArcMappedSignal::new(h.clone(), id_ref, id_mut).set(v),
+            _ => wr!(h, v, wv),
+        },
+        Handle::Pair(_, w) => match wv {
+            6 | 8 => SignalSetter::<i64>::from(*w).set(v),
+            _ => wr!(w, v, wv),
+        },
+        Handle::Rw(h) => match wv {
+            6 => SignalSetter::<i64>::from(*h).set(v),
+            8 => MappedSignal::new(*h, id_ref, id_mut).set(v),
+            _ => wr!(h, v, wv),
+        },
+        Handle::ArcPair(_, w) => match wv {
+            6 | 8 => {
+                let w = w.clone();
+                let st = SignalSetter::<i64>::map(move |x| w.set(x));
+                if st.try_set(v).is_some() {
+                    panic!("SignalSetter::try_set on a live setter handed the value back")
+                }
+            }
+            _ => wr!(w, v, wv),
+        },
         Handle::Trig(cell, t) => {
             cell.store(v, Ordering::SeqCst);
             t.notify();
@@ -388,13 +522,30 @@ fn notify_node(hs: &[Handle], s: usize) {
     if is_gone(s) {
         return;
     }
+    let nv = (var_of(s) / 8) % 3;
     match &hs[s] {
-        Handle::ArcRw(h) => h.notify(),
-        Handle::Pair(_, w) => w.notify(),
-        Handle::Rw(h) => h.notify(),
-        Handle::ArcPair(_, w) => w.notify(),
+        Handle::ArcRw(h) if nv == 2 => ArcMappedSignal::new(h.clone(), id_ref, id_mut).notify(),
+        Handle::Rw(h) if nv == 2 => MappedSignal::new(*h, id_ref, id_mut).notify(),
+        Handle::ArcRw(h) => nt!(h, nv),
+        Handle::Pair(_, w) => nt!(w, nv),
+        Handle::Rw(h) => nt!(h, nv),
+        Handle::ArcPair(_, w) => nt!(w, nv),
         Handle::Trig(_, t) => t.notify(),
         _ => panic!("case notifies a non-signal node"),
+    }
+}
+
+fn silent_node(hs: &[Handle], s: usize, how: i64) {
+    if is_gone(s) {
+        return;
+    }
+    match &hs[s] {
+        Handle::ArcRw(h) => silent!(h, how),
+        Handle::Pair(_, w) => silent!(w, how),
+        Handle::Rw(h) => silent!(h, how),
+        Handle::ArcPair(_, w) => silent!(w, how),
+        Handle::Trig(..) => {}
+        _ => panic!("case touches a non-signal node"),
     }
 }
 
@@ -405,7 +556,11 @@ fn eval(e: &Expr, hs: &mut Vec<Handle>) -> i64 {
         Expr::RdU(j) => read_node(hs, *j, false),
         Expr::Untr(a) => {
             let _g = UntrGuard::enter();
-            untrack(|| eval(a, hs))
+            if flag(2) {
+                untrack_with_diagnostics(|| eval(a, hs))
+            } else {
+                untrack(|| eval(a, hs))
+            }
         }
         Expr::Add(a, b) => {
             let x = eval(a, hs);
@@ -474,34 +629,91 @@ fn run_effect_body(id: usize, e: &Expr, hs: &[Handle]) -> Ret {
     Ret { v, _nested: nested }
 }
 
-fn make_memo(cmp: i64, flavor: i64, id: usize, e: Expr, lower: Arc<Vec<Handle>>) -> Handle {
+/// cv: 0 new / new_with_compare, 1 new_owning (the body computes the changed flag itself, with
+/// the same comparator), 2 the memo is built as the other handle type and converted
+fn make_memo(cmp: i64, flavor: i64, id: usize, e: Expr, lower: Arc<Vec<Handle>>, cv: i64) -> Handle {
+    if cv == 1 {
+        let f = move |prev: Option<i64>| {
+            let new = run_body(id, &e, &lower);
+            let changed = match cmp {
+                0 => prev != Some(new),
+                2 => parity_changed(prev.as_ref(), Some(&new)),
+                _ => true,
+            };
+            (new, changed)
+        };
+        return if flavor == 0 {
+            Handle::ArcMemo(ArcMemo::new_owning(f))
+        } else {
+            Handle::Memo(Memo::new_owning(f))
+        };
+    }
+    let build = if cv == 2 { 1 - flavor.min(1) } else { flavor };
     let f = move |_: Option<&i64>| run_body(id, &e, &lower);
-    match (flavor, cmp) {
+    let h = match (build, cmp) {
         (0, 0) => Handle::ArcMemo(ArcMemo::new(f)),
         (0, 2) => Handle::ArcMemo(ArcMemo::new_with_compare(f, parity_changed)),
         (0, _) => Handle::ArcMemo(ArcMemo::new_with_compare(f, |_, _| true)),
         (_, 0) => Handle::Memo(Memo::new(f)),
         (_, 2) => Handle::Memo(Memo::new_with_compare(f, parity_changed)),
         (_, _) => Handle::Memo(Memo::new_with_compare(f, |_, _| true)),
+    };
+    if cv == 2 {
+        match h {
+            Handle::ArcMemo(m) => Handle::Memo(Memo::from(m)),
+            Handle::Memo(m) => Handle::ArcMemo(ArcMemo::from(m)),
+            h => h,
+        }
+    } else {
+        h
     }
 }
 
 /// creates an effect of the given kind under the CURRENT owner; the caller sets the task label
-fn make_effect(kind: i64, id: usize, e: Expr, hd: Expr, lower: Arc<Vec<Handle>>) -> EffHandle {
+/// var: 0 the usual constructor; 1 its Send + Sync sibling (Effect::new_sync, Effect::watch_sync,
+/// RenderEffect::new_isomorphic, ImmediateEffect::new_isomorphic); 2 RenderEffect::new_with_value /
+/// ImmediateEffect::new_scoped; 3 ImmediateEffect::new_mut
+fn make_effect(kind: i64, id: usize, e: Expr, hd: Expr, lower: Arc<Vec<Handle>>, var: i64) -> EffHandle {
     let l2 = lower.clone();
-    match kind {
-        0 => EffHandle::Eff(Effect::new(move |_: Option<Ret>| run_effect_body(id, &e, &lower))),
-        1 => EffHandle::Render(Some(RenderEffect::new(move |_: Option<Ret>| {
+    match (kind, var) {
+        (0, 1) => EffHandle::Iso(Effect::new_sync(move |_: Option<Ret>| run_effect_body(id, &e, &lower))),
+        (0, _) => EffHandle::Eff(Effect::new(move |_: Option<Ret>| run_effect_body(id, &e, &lower))),
+        (1, 1) => EffHandle::Render(Some(RenderEffect::new_isomorphic(move |_: Option<Ret>| {
             run_effect_body(id, &e, &lower)
         }))),
-        2 | 3 => EffHandle::Eff(Effect::watch(
+        (1, 2) => EffHandle::Render(Some(RenderEffect::new_with_value(
+            move |_: Option<Ret>| run_effect_body(id, &e, &lower),
+            Some(Ret { v: 0, _nested: vec![] }),
+        ))),
+        (1, _) => EffHandle::Render(Some(RenderEffect::new(move |_: Option<Ret>| {
+            run_effect_body(id, &e, &lower)
+        }))),
+        (2 | 3, 1) => EffHandle::Iso(Effect::watch_sync(
             move || run_effect_body(id, &e, &lower),
             move |_new: &Ret, _old: Option<&Ret>, _prev: Option<i64>| run_handler(id, &hd, &l2),
             kind == 3,
         )),
-        4 => EffHandle::Iso(Effect::new_isomorphic(move |_: Option<Ret>| {
+        (2 | 3, _) => EffHandle::Eff(Effect::watch(
+            move || run_effect_body(id, &e, &lower),
+            move |_new: &Ret, _old: Option<&Ret>, _prev: Option<i64>| run_handler(id, &hd, &l2),
+            kind == 3,
+        )),
+        (4, _) => EffHandle::Iso(Effect::new_isomorphic(move |_: Option<Ret>| {
             run_effect_body(id, &e, &lower)
         })),
+        (_, 1) => EffHandle::Imm(Some(ImmediateEffect::new_isomorphic(move || {
+            run_body(id, &e, &lower);
+        }))),
+        (_, 2) => {
+            // lives until the current owner is cleaned up
+            ImmediateEffect::new_scoped(move || {
+                run_body(id, &e, &lower);
+            });
+            EffHandle::Imm(None)
+        }
+        (_, 3) => EffHandle::Imm(Some(ImmediateEffect::new_mut(move || {
+            run_body(id, &e, &lower);
+        }))),
         _ => EffHandle::Imm(Some(ImmediateEffect::new(move || {
             run_body(id, &e, &lower);
         }))),
@@ -521,7 +733,7 @@ fn instantiate(k: usize, hs: &mut Vec<Handle>) {
     let lower: Arc<Vec<Handle>> = Arc::new(hs.clone());
     let h = match decl.at(0).num() {
         1 => {
-            let h = make_memo(decl.at(1).num(), decl.at(2).num(), id as usize, parse_expr(decl.at(3)), lower);
+            let h = make_memo(decl.at(1).num(), decl.at(2).num(), id as usize, parse_expr(decl.at(3)), lower, decl.at(4).num() / 8);
             KEEP.with(|k| k.borrow_mut().push(h.clone()));
             h
         }
@@ -529,7 +741,7 @@ fn instantiate(k: usize, hs: &mut Vec<Handle>) {
             // the label of the tasks spawned from here on; put back afterwards (the creator may
             // be a RenderEffect in its first run, whose own task is spawned after that run)
             let saved = EXEC.with(|x| std::mem::replace(&mut x.borrow_mut().label, id));
-            let made = make_effect(decl.at(1).num(), id as usize, parse_expr(decl.at(2)), parse_expr(decl.at(3)), lower);
+            let made = make_effect(decl.at(1).num(), id as usize, parse_expr(decl.at(2)), parse_expr(decl.at(3)), lower, 0);
             EXEC.with(|x| x.borrow_mut().label = saved);
             match made {
                 EffHandle::Render(Some(r)) => NESTED.with(|n| match n.borrow_mut().last_mut() {
@@ -560,14 +772,20 @@ fn run_handler(id: usize, e: &Expr, hs: &[Handle]) -> i64 {
 // ------------------------------------------------------------------ harness-owned executor
 struct TaskWaker {
     id: usize,
-    queued: AtomicBool,
+    queued: Arc<AtomicBool>,
     queue: Arc<Mutex<VecDeque<usize>>>,
+    // case flag 1: every poll hands out a new waker; the ones handed out before are dead
+    gen: u64,
+    cur: Arc<std::sync::atomic::AtomicU64>,
 }
 impl Wake for TaskWaker {
     fn wake(self: Arc<Self>) {
         self.wake_by_ref()
     }
     fn wake_by_ref(self: &Arc<Self>) {
+        if self.gen != self.cur.load(Ordering::SeqCst) {
+            return;
+        }
         if !self.queued.swap(true, Ordering::SeqCst) {
             self.queue.lock().unwrap().push_back(self.id);
         }
@@ -596,7 +814,7 @@ fn exec_spawn(fut: Pin<Box<dyn Future<Output = ()>>>) {
     EXEC.with(|e| {
         let mut e = e.borrow_mut();
         let id = e.tasks.len();
-        let waker = Arc::new(TaskWaker { id, queued: AtomicBool::new(true), queue: e.queue.clone() });
+        let waker = Arc::new(TaskWaker { id, queued: Arc::new(AtomicBool::new(true)), queue: e.queue.clone(), gen: 0, cur: Arc::new(std::sync::atomic::AtomicU64::new(0)) });
         let label = e.label;
         e.tasks.push(Task { label, fut: Some(fut), waker });
         e.queue.lock().unwrap().push_back(id);
@@ -626,8 +844,13 @@ fn exec_poll_nth(k: usize) -> Option<i64> {
             let k = k % q.len();
             q.remove(k).unwrap()
         };
+        let fresh = flag(1);
         let t = &mut e.tasks[id];
         t.waker.queued.store(false, Ordering::SeqCst);
+        if fresh {
+            let gen = t.waker.cur.fetch_add(1, Ordering::SeqCst) + 1;
+            t.waker = Arc::new(TaskWaker { id, queued: t.waker.queued.clone(), queue: t.waker.queue.clone(), gen, cur: t.waker.cur.clone() });
+        }
         Some((id, t.label, t.fut.take(), t.waker.clone()))
     })?;
     ev(8, vec![label]);
@@ -659,6 +882,7 @@ fn exec_reset() {
 
 // ------------------------------------------------------------------ one case
 enum EffHandle {
+    Gone,
     Eff(Effect<LocalStorage>),
     Iso(Effect<SyncStorage>),
     Render(Option<RenderEffect<Ret>>),
@@ -696,6 +920,18 @@ fn run_case(c: &Sexp, mask: u8) -> Sexp {
         x.gone.clear();
         x.templates.clear();
         x.next_id = c.at(0).list().len() as i64;
+        x.flags = c.at(2).num();
+        // the API variant of a node: the field after the ones the model reads
+        x.vars = c
+            .at(0)
+            .list()
+            .iter()
+            .map(|nd| match nd.at(0).num() {
+                0 | 2 => nd.at(3).num(),
+                1 => nd.at(4).num(),
+                _ => 0,
+            })
+            .collect();
     });
     KEEP.with(|k| k.borrow_mut().clear());
     NESTED.with(|n| n.borrow_mut().clear());
@@ -732,7 +968,7 @@ fn run_case(c: &Sexp, mask: u8) -> Sexp {
                 let cmp = nd.at(1).num();
                 let flavor = nd.at(2).num();
                 let e = parse_expr(nd.at(3));
-                make_memo(cmp, flavor, i, e, lower)
+                make_memo(cmp, flavor, i, e, lower, nd.at(4).num() / 8)
             }
             5 => {
                 // a template: created at run time by the bodies that evaluate (9 i)
@@ -777,17 +1013,49 @@ fn run_case(c: &Sexp, mask: u8) -> Sexp {
                     Expr::Const(z) => *z,
                     _ => 0,
                 };
+                let dv = nd.at(3).num() / 8;
                 #[allow(deprecated)]
                 match (nd.at(1).num(), inner) {
+                    // Signal<_, LocalStorage> straight from an Arc signal
+                    (3, Some(j)) if dv == 2 && matches!(hs[j], Handle::ArcRw(_) | Handle::ArcPair(..)) => match &hs[j] {
+                        Handle::ArcRw(s) => Handle::WrapL(Signal::<i64, LocalStorage>::from(s.clone()), inner),
+                        Handle::ArcPair(r, _) => Handle::WrapL(Signal::<i64, LocalStorage>::from(r.clone()), inner),
+                        _ => unreachable!(),
+                    },
                     (3, Some(j)) => Handle::Wrap(to_signal(&hs[j]), inner),
-                    (3, None) => Handle::Wrap(Signal::stored(z), None),
+                    (3, None) => match dv {
+                        1 => Handle::Wrap(Signal::from(z), None),
+                        2 => Handle::WrapL(Signal::stored_local(z), None),
+                        _ => Handle::Wrap(Signal::stored(z), None),
+                    },
                     (4, Some(j)) => Handle::ArcWrap(to_arc_signal(&hs[j]), inner),
-                    (4, None) => Handle::ArcWrap(ArcSignal::stored(z), None),
+                    (4, None) => match dv {
+                        1 => Handle::ArcWrap(ArcSignal::from(z), None),
+                        2 => Handle::ArcWrapL(ArcSignal::stored_local(z), None),
+                        _ => Handle::ArcWrap(ArcSignal::stored(z), None),
+                    },
                     (5, Some(j)) => match &hs[j] {
+                        Handle::ArcRw(s) if dv == 1 => {
+                            Handle::Mapped(MappedSignal::from(ArcMappedSignal::new(s.clone(), id_ref, id_mut)), j)
+                        }
                         Handle::ArcRw(s) => Handle::ArcMapped(ArcMappedSignal::new(s.clone(), id_ref, id_mut), j),
                         Handle::Rw(s) => Handle::Mapped(MappedSignal::new(*s, id_ref, id_mut), j),
                         _ => panic!("case maps a node that is not an (Arc)RwSignal"),
                     },
+                    (7, Some(j)) => Handle::Prop(
+                        match (&hs[j], dv) {
+                            (Handle::Pair(r, _), 1) => MaybeProp::from(*r),
+                            (Handle::Rw(s), 1) => MaybeProp::from(*s),
+                            (Handle::Memo(m), 1) => MaybeProp::from(*m),
+                            (h, _) => MaybeProp::from(to_signal(h)),
+                        },
+                        inner,
+                    ),
+                    (7, None) => Handle::Prop(if dv == 1 { MaybeProp::from(Some(z)) } else { MaybeProp::from(z) }, None),
+                    (8, Some(j)) => Handle::OptSig(Signal::<Option<i64>>::from(to_signal(&hs[j])), inner),
+                    (8, None) => Handle::OptSig(Signal::<Option<i64>>::from(z), None),
+                    (9, Some(j)) => Handle::Wrap(Signal::from(to_maybe(&hs[j])), inner),
+                    (9, None) => Handle::Wrap(Signal::from(MaybeSignal::Static(z)), None),
                     (_, Some(j)) => Handle::Maybe(to_maybe(&hs[j]), inner),
                     (_, None) => Handle::Maybe(MaybeSignal::Static(z), None),
                 }
@@ -798,10 +1066,15 @@ fn run_case(c: &Sexp, mask: u8) -> Sexp {
                     let mut env = (*lower).clone();
                     eval(&e, &mut env)
                 };
-                match nd.at(1).num() {
-                    0 => Handle::Closure(Arc::new(f)),
-                    1 => Handle::Derive(Signal::derive(f)),
-                    _ => Handle::ArcDerive(ArcSignal::derive(f)),
+                #[allow(deprecated)]
+                match (nd.at(1).num(), nd.at(3).num() / 8) {
+                    (0, 1) => Handle::Maybe(MaybeSignal::derive(f), None),
+                    (0, 2) => Handle::Prop(MaybeProp::derive(move || Some(f())), None),
+                    (0, _) => Handle::Closure(Arc::new(f)),
+                    (1, 1) => Handle::WrapL(Signal::derive_local(f), None),
+                    (1, _) => Handle::Derive(Signal::derive(f)),
+                    (_, 1) => Handle::ArcWrapL(ArcSignal::derive_local(f), None),
+                    (_, _) => Handle::ArcDerive(ArcSignal::derive(f)),
                 }
             }
             _ => {
@@ -820,7 +1093,7 @@ fn run_case(c: &Sexp, mask: u8) -> Sexp {
                     None => root.child(),
                 };
                 EXEC.with(|x| x.borrow_mut().label = i as i64);
-                let handle = owner.with(|| make_effect(kind, i, e, hd, lower));
+                let handle = owner.with(|| make_effect(kind, i, e, hd, lower, nd.at(5).num()));
                 eff = Some(EffRec { owner, handle, parent });
                 Handle::Effect
             }
@@ -892,7 +1165,20 @@ fn run_case(c: &Sexp, mask: u8) -> Sexp {
             7 => {
                 // the handles of the RenderEffects / ImmediateEffects of the subtree are dropped
                 // (they live in their handle, not in the arena), then the owner is cleaned up
-                if let Some(Some(_)) = effs.get(a as usize) {
+                let how = op.at(2).num();
+                if how != 0 {
+                    // the effect itself is disposed (Dispose::dispose / Effect::stop / the handle
+                    // dropped); its owner is left alone
+                    if let Some(Some(r)) = effs.get_mut(a as usize) {
+                        match std::mem::replace(&mut r.handle, EffHandle::Gone) {
+                            EffHandle::Eff(h) => if how == 2 { h.stop() } else { h.dispose() },
+                            EffHandle::Iso(h) => if how == 2 { h.stop() } else { h.dispose() },
+                            EffHandle::Render(h) => drop(h),
+                            EffHandle::Imm(h) => drop(h),
+                            EffHandle::Gone => {}
+                        }
+                    }
+                } else if let Some(Some(_)) = effs.get(a as usize) {
                     let mut po = vec![];
                     postorder(&effs, a as usize, &mut po);
                     for d in po {
@@ -907,6 +1193,15 @@ fn run_case(c: &Sexp, mask: u8) -> Sexp {
                     if let Some(Some(r)) = effs.get(a as usize) {
                         r.owner.cleanup();
                     }
+                }
+            }
+            9 => silent_node(&hs, a as usize, op.at(2).num()),
+            10 => {
+                // an effect (template k) is created NOW under the owner of effect `a`
+                let k = op.at(2).num() as usize;
+                if let Some(Some(r)) = effs.get(a as usize) {
+                    let mut env = hs.clone();
+                    r.owner.with(|| instantiate(k, &mut env));
                 }
             }
             _ => {}
